@@ -21,9 +21,11 @@ def run(chk):
     # every end-of-day abort code behind a commit and a cancel that go idle, with and without a dangling pre-authorisation
     codes = range(256) if thorough else list(range(0, 256, 7)) + [160, 119]
     extra = []
-    for code in codes:
+    # the dangling pre-authorisation's receipt number runs over the range of the field (1..9999)
+    receipts = [77, 9999, 2, 9998, 1000, 999, 10, 4711]
+    for k, code in enumerate(codes):
         for op in ("commit", "cancel"):
-            for dang in ([], [77]):
+            for dang in ([], [receipts[k % len(receipts)]]):
                 plan = [{"o": "ok"}, {"o": "ok", "status": {"amount": [1]}}, {"o": "pending"}] + ([{"o": "ok"}] if dang else []) + [{"o": "abort", "code": code}]
                 extra.append({"config": {"max": 1}, "term": {"dangling": dang}, "calls": [{"op": "begin", "token": [97]}, {"op": op, "token": [97], "amount": [1]}],
                               "plan": {"exchanges": plan}})
@@ -31,7 +33,7 @@ def run(chk):
     okp = {"o": "ok", "status": {"amount": [1]}}
     for second in ("commit", "cancel"):
         for code in (181, 160, 5):
-            for dang in ([], [77]):
+            for dang in ([], [77], [9999]):
                 tail = [{"o": "pending"}] + ([{"o": "ok"}] if dang else []) + [{"o": "ok"}]
                 extra.append({"config": {"max": 2}, "term": {"dangling": dang},
                               "calls": [{"op": "begin", "token": [97]}, {"op": "cancel", "token": [97]}, {"op": "begin", "token": [98]},
